@@ -13,7 +13,7 @@ from .c04 import INTRINSIC_WIDTH, hdr_extent
 EXPL = ('Table-driven implementation (not built by the default configuration, analysed on every run): all 8 x 256 constants equal the '
         'slices generated from the Castagnoli polynomial and are GF(2)-linear; the slicing-by-8 loop body and the bytewise head/tail '
         'statements are abstractly interpreted over GF(2)-affine forms and compared with the exact 8-byte / 1-byte register update; '
-        'length partition head + body + tail == length for every alignment and length residue (set-of-constants evaluation); framing '
+        'the loads through the input pointer tile [data, data + length) exactly once, in order and aligned, for every alignment and a grid of lengths (finite-domain trace); framing '
         '(init / final XOR) of every implementation; stride agreement of the intrinsic loops; exactly one implementation per platform.')
 NOT_DECIDED = 'Semantics of the hardware CRC instructions (trusted); agreement on random long buffers is a run-time fact.'
 POLY = 0x82F63B78
@@ -28,7 +28,7 @@ def run(ctx, sess):
     ctx.rule('C18.2', 'kernels: the slicing-by-8 loop body equals the exact 8-byte CRC register update and the bytewise statements equal the 1-byte update (GF(2) abstract interpretation)')
     ctx.rule('C18.3', 'framing: initial value and final XOR are 0xFFFFFFFF in jls_crc32c and jls_crc32c_hdr of every implementation')
     ctx.rule('C18.4', 'coverage of the intrinsic implementations: for every (alignment, length) of a finite grid the CRC steps, each consuming its operand width, tile the input exactly and in order; the header variant covers 28 bytes')
-    ctx.rule('C18.5', 'length partition of the table implementation: head + 8 * iterations + tail == length, head aligns the pointer, for every alignment and length')
+    ctx.rule('C18.5', 'coverage of the table implementation: traced for every alignment 0..7 and lengths 0..40, 63..65, 100, 257, the loads through the input pointer tile [data, data + length) exactly once and in order, and every 32-bit load is 4-byte aligned')
     ctx.rule('C18.6', 'dispatch: for every platform macro set exactly one implementation is included')
     # ---- C18.1
     k = S.fn('crc32cSlicingBy8')
@@ -114,49 +114,83 @@ def run(ctx, sess):
     hs = S.fn('jls_crc32c_hdr')
     n, how = hdr_extent(hs)
     ctx.ob('C18.4', n == 28, 'jls_crc32c_hdr[%s]' % hs.file, 'header variant covers 28 bytes', hs.where(), '%s bytes (%s)' % (n, how))
-    # ---- C18.5 partition
-    fd = FD(S)
-    decls = {ev.name: ev for ev in k.events('decl')}
-    need = ('initial_bytes', 'running_length', 'end_bytes')
-    if not all(n_ in decls for n_ in need):
-        raise AnalysisBroken('partition locals not found: %s' % [n_ for n_ in need if n_ not in decls])
+    # ---- C18.5 the table implementation consumes the input exactly once, in order
+    from ..fd import trace_calls
+    TSZ = {'u8': 1, 'i8': 1, 'u16': 2, 'i16': 2, 'u32': 4, 'i32': 4, 'u64': 8, 'i64': 8}
+    deref_of_inc = {}          # id of a p++ node -> width of the load it feeds
+    for b_ in k.blocks.values():
+        for e in [ev.e for ev in b_.events if ev.e is not None] + ([b_.cond] if b_.cond is not None else []):
+            for nd in walk(e):
+                if nd.get('op') == 'un' and nd.get('o') == '*':
+                    inner = nd['k'][0]
+                    while inner.get('op') in ('cast', 'paren'):
+                        inner = inner['k'][0]
+                    if inner.get('op') == 'un' and inner.get('o') in ('post++', 'post--'):
+                        deref_of_inc[inner.get('id')] = TSZ.get(nd.get('t'), None)
+    dparam, lparam = k.params[1]['name'], k.params[2]['name']
     bad = []
     cases = 0
-    tail_loop_hdr = sorted(lp)[0]
-    # evaluate at the declaration of end_bytes (all three are defined there)
-    target = decls['end_bytes']
-    lit = {'op': 'ref', 'rk': 'local', 'name': 'end_bytes', 't': 'u64'}
     for addr in range(0, 8):
-        for L in range(0, 41):
-            env = {k.params[1]['name']: 0x1000 + addr, k.params[2]['name']: L, crc_var: 0}
-            res = {}
-            for name in need:
-                tgt = decls[name]
-                # value right after the declaration: evaluate its initialiser at that point
-                vals = values_at(S, k, tgt, tgt.e, env)
-                res[name] = vals
-            cases += 1
-            ib = res['initial_bytes']
-            # initial_bytes is clamped to length after its declaration: evaluate at running_length's declaration instead
-            ibv = values_at(S, k, decls['running_length'], {'op': 'ref', 'rk': 'local', 'name': 'initial_bytes', 't': 'u64'}, env)
-            rl, eb = res['running_length'], res['end_bytes']
-            if None in ibv or None in rl or None in eb or len(ibv) != 1 or len(rl) != 1 or len(eb) != 1:
-                bad.append('addr%%8=%d L=%d: not decidable (%s %s %s)' % (addr, L, ibv, rl, eb))
+        for L in list(range(0, 41)) + [63, 64, 65, 100, 257]:
+            base = 0x1000 + addr
+            loads = []
+
+            def on_event(ev, env, sym, loads=loads, base=base, L=L):
+                if ev.k not in ('store', 'decl') or ev.e is None:
+                    return
+                def ptr_val(x):
+                    while x.get('op') in ('cast', 'paren'):
+                        x = x['k'][0]
+                    if x.get('op') == 'ref' and isinstance(env.get(x.get('name')), int) and base - 64 <= env[x['name']] <= base + L + 64:
+                        return env[x['name']]
+                    return None
+                if ev.k == 'store' and ev.e.get('id') in deref_of_inc and deref_of_inc[ev.e.get('id')]:
+                    v = ptr_val(ev.e['k'][0])
+                    if v is not None:
+                        loads.append((v, deref_of_inc[ev.e['id']]))
+                    return
+                for nd in walk(ev.e):
+                    if nd.get('op') == 'un' and nd.get('o') == '*':
+                        inner = nd['k'][0]
+                        while inner.get('op') in ('cast', 'paren'):
+                            inner = inner['k'][0]
+                        if inner.get('op') == 'un' and inner.get('o') in ('post++', 'post--'):
+                            continue          # recorded at the increment
+                        v = ptr_val(inner)
+                        if v is not None and TSZ.get(nd.get('t')):
+                            loads.append((v, TSZ[nd['t']]))
+                    elif nd.get('op') == 'sub' and const_of(nd['k'][1]) is not None and TSZ.get(nd.get('t')):
+                        v = ptr_val(nd['k'][0])
+                        if v is not None:
+                            loads.append((v + const_of(nd['k'][1]) * TSZ[nd['t']], TSZ[nd['t']]))
+            try:
+                trace_calls(S, k, {k.params[0]['name']: 0, dparam: base, lparam: L}, max_steps=20000, on_event=on_event)
+            except Top:
+                bad.append('addr%%8=%d L=%d: the control skeleton is not decidable' % (addr, L))
                 continue
-            i0, r0, e0 = list(ibv)[0], list(rl)[0], list(eb)[0]
-            if i0 + r0 + e0 != L or r0 % 8 or e0 >= 8 or i0 > 3:
-                bad.append('addr%%8=%d L=%d: head %d + body %d + tail %d != %d' % (addr, L, i0, r0, e0, L))
-            elif L >= 3 and (0x1000 + addr + i0) % 4 and r0:
-                bad.append('addr%%8=%d L=%d: pointer not 4-byte aligned at the 32-bit loads' % (addr, L))
-    ctx.ob('C18.5', not bad, k.name, 'head + body + tail == length, aligned body', k.where(),
-           '%d (alignment, length) cases' % cases if not bad else '; '.join(bad[:3]))
-    # loop bounds use those locals
-    bounds = []
-    for hdr, body in sorted(lp.items()):
-        c = strip_casts(k.blocks[hdr].cond) if k.blocks[hdr].cond else None
-        bounds.append(show(c) if c else None)
-    ok = any('initial_bytes' in (b or '') for b in bounds) and any('running_length' in (b or '') and '8' in (b or '') for b in bounds) and any('end_bytes' in (b or '') for b in bounds)
-    ctx.ob('C18.5', ok, k.name, 'the three loops run initial_bytes, running_length / 8 and end_bytes times', k.where(), str(bounds))
+            cases += 1
+            # consecutive repeats of the same load are one access
+            segs = []
+            for x in loads:
+                if not segs or segs[-1] != x:
+                    segs.append(x)
+            pos = base
+            why = None
+            for a_, w_ in segs:
+                if a_ != pos:
+                    why = 'load of %d bytes at offset %d, expected offset %d' % (w_, a_ - base, pos - base)
+                    break
+                if w_ >= 4 and a_ % 4:
+                    why = '%d-byte load at an address that is not 4-byte aligned (offset %d)' % (w_, a_ - base)
+                    break
+                pos += w_
+            if why is None and pos != base + L:
+                why = 'bytes [0, %d) consumed, length is %d' % (pos - base, L)
+            if why:
+                bad.append('addr%%8=%d L=%d: %s' % (addr, L, why))
+    ctx.ob('C18.5', not bad, k.name, 'the loads tile [data, data + length) exactly, in order, word loads aligned', k.where(),
+           '%d (alignment, length) pairs traced' % cases if not bad else '; '.join(bad[:3]) + ' (%d of %d pairs)' % (len(bad), cases + 0))
+    ctx.floor('(alignment, length) pairs traced through the table implementation', cases, 300)
     # ---- C18.6 dispatch
     sets = [
         ('linux x86_64', [], 'crc32c_intel_sse4.c'),
